@@ -2,7 +2,7 @@
    PC.ostep (the acceptance function evaluated on the harness observations).  Simulation relation [R]
    between LTS states and automaton states; tactic [sim_go] handles one action. *)
 From Coq Require Import List Arith Bool Lia.
-From SV Require Import C12.Lts C12.LtsProofs C12.Tac C12.PCons C12.PConsProofs C12.PConsInv1 C12.PConsInv2 C12.PConsSafety.
+From SV Require Import C12.Lts C12.LtsProofs C12.Tac C12.PCons C12.PConsProofs C12.PConsInv_01 C12.PConsInv_02 C12.PConsSafety.
 Import ListNotations.
 
 Module PCSim.
